@@ -34,7 +34,8 @@
    declarative rows.                                                         *)
 EXTENDS EvalFam, Json, SequencesExt, IOUtils
 
-CONSTANTS DivMapped,              \* "/" maps to an MX method that exists        (as built: "__div__", absent in casadi 3.8)
+CONSTANTS DivMapped,              \* "/" maps to an MX method that exists        (was "__div__", absent in casadi 3.8; fixed in /repo 292c263,
+                                  \*                                               so the as-built cfgs now also say TRUE)
           SlicesRangeChecked,     \* slice bounds are checked against 1..n       (as built: unchecked Python slice)
           LoopIndexRangeChecked,  \* loop-dependent subscripts are checked       (as built: negative 0-based index wraps around)
           PartialSubscriptIsRow,  \* A[i] on a matrix means A[i, :]              (as built: linear column-major element i)
